@@ -44,7 +44,8 @@ RULE = ("one class statement per case, rendered to source and exec'd in a fresh 
         "type= x auto_attribs x these, mandatory-after-default over own field sequences x base "
         "classes (mandatory/defaulted/kw_only/init=False fields, two bases in both orders, a chain) "
         "x field transformers (reverse, rotate, append mandatory/defaulted, kw_only, drop) x class "
-        "kw_only, hash x unsafe_hash x cache_hash x eq x frozen x init x own __eq__/__hash__/__init__ "
+        "kw_only, every kind of rejection below every kind of base (generated hook-running / frozen "
+        "__setattr__, slots, fields), hash x unsafe_hash x cache_hash x eq x frozen x init x own __eq__/__hash__/__init__ "
         "x auto_detect x exception/frozen base, class on_setattr x field on_setattr x validator x "
         "frozen x frozen/hooked bases x own __setattr__ x auto_detect x init=False fields, str x repr "
         "x own __repr__, equal __init__ aliases own/inherited/transformer) each crossed with the front "
@@ -175,6 +176,8 @@ BASES = {
     "Hc": "@attr.s(on_setattr=_h)\nclass B_Hc:\n    bc = attr.ib(default=1)\n",
     "Al": "@attr.s\nclass B_Al:\n    _x = attr.ib(default=1)\n",
     "V": "@attr.s\nclass B_V:\n    bv = attr.ib(default=1, validator=_v)\n",
+    "Dv": "@attrs.define(slots=False)\nclass B_Dv:\n    bv: int = attrs.field(default=1, validator=_v)\n",
+    "DvS": "@attrs.define\nclass B_DvS:\n    bv: int = attrs.field(default=1, validator=_v)\n",
     "Sl": "@attr.s(slots=True)\nclass B_Sl:\n    bs = attr.ib()\n",
     "SlD": "@attrs.define\nclass B_SlD:\n    bs: int = 1\n",
     "P": "class B_P:\n    pass\n",
@@ -814,7 +817,7 @@ def fam_setattr(tier, rng):
                 cls_os, fld_os, [False, True], [None, True, False], bases, [False, True],
                 [None, True, False], [None, True, False], range(len(shapes))):
             core = (bs in core_bases and ad_ is None and sl is None and shape == 0 and fr is not False)
-            p = (0.6 if quick else 1.0) if core else (0.004 if quick else 0.08)
+            p = (0.45 if quick else 1.0) if core else (0.004 if quick else 0.08)
             if rng.random() > p:
                 continue
             kw = {}
@@ -890,6 +893,39 @@ def fam_alias(tier, rng):
                 yield annotate(with_api(api, {"field_transformer": ft}, [f]), api in ("define", "frozen"))
 
 
+def fam_late(tier, rng):
+    """Every kind of rejection below every kind of base: what the class inherits (generated hook-running
+    or frozen __setattr__, slots, fields) must not make a failed decoration leave traces."""
+    quick = tier == "quick"
+    bases = [(), ("Hc",), ("Dv",), ("H",), ("Fz",), ("D",)] + ([] if quick else [("Hn",), ("V",), ("DvS",), ("Sl",), ("M",), ("P",), ("Ps",)])
+    errs = [
+        ("hashx", {"hash": "X"}, [mkfield("y", default="value")]),
+        ("cache_nohash", {"cache_hash": True}, [mkfield("y", default="value")]),
+        ("cache_noinit", {"cache_hash": True, "unsafe_hash": True, "init": False}, [mkfield("y", default="value")]),
+        ("str_norepr", {"str": True, "repr": False}, [mkfield("y", default="value")]),
+        ("dup_alias", {}, [mkfield("_y", default="value"), mkfield("y", default="value")]),
+        ("frozen_hook", {"frozen": True}, [mkfield("y", default="value", os="validate")]),
+        ("annot_type", {}, [mkfield("y", default="value", annot=True, type=True)]),
+        ("order", {}, [mkfield("y", default="value"), mkfield("z")]),
+        ("unannotated", {"auto_attribs": True}, [mkfield("y", default="value", annot=False)]),
+        ("own_setattr_hooks", {"auto_detect": True}, [mkfield("y", default="value", os="user")]),
+        ("none", {}, [mkfield("y", default="value")]),
+    ]
+    for api in APIS:
+        for bs in bases:
+            for tag, kw, fs in errs:
+                for sl in (True, False):
+                    own = ("setattr",) if tag == "own_setattr_hooks" else ()
+                    sp = with_api(api, dict(kw, slots=sl), fs, bases=bs, own=own)
+                    if api in ("define", "frozen") and tag not in ("unannotated",):
+                        for f in sp["fields"]:
+                            f["annot"] = True
+                    if api == "make_class":
+                        for f in sp["fields"]:
+                            f["annot"] = False
+                    yield sp
+
+
 def random_spec(rng):
     api = rng.choice(APIS)
     is_def = api in ("define", "frozen")
@@ -927,7 +963,7 @@ def random_spec(rng):
         bases = ()
     elif r < 0.9:
         bases = (rng.choice(["M", "D", "Dk", "Di", "MD", "Mx", "Dx", "Fz", "Fz0", "FzD", "FzSub", "H", "Hn",
-                             "Hc", "Al", "V", "Sl", "SlD", "P", "Ps", "Exc", "ExcA"]),)
+                             "Hc", "Hc", "Dv", "DvS", "Al", "V", "Sl", "SlD", "P", "Ps", "Exc", "ExcA"]),)
     else:
         bases = tuple(rng.sample(["M", "D", "Dk", "H", "P", "V", "Al", "Hn"], 2))
     if api == "make_class" and own and any(k in ("Exc", "ExcA") for k in bases):
@@ -1044,7 +1080,7 @@ def from_initgen(rng, n):
 
 FAMILIES = [("order", fam_order), ("field", fam_field_rules), ("cls_eq_order", fam_cls_eq_order),
             ("annotations", fam_annotations), ("hash", fam_hash), ("setattr", fam_setattr),
-            ("str", fam_str), ("alias", fam_alias)]
+            ("str", fam_str), ("alias", fam_alias), ("late", fam_late)]
 
 
 def gen_specs(tier, seed):
@@ -1063,7 +1099,7 @@ def gen_specs(tier, seed):
     for name, fn in FAMILIES:
         for sp in fn(tier, random.Random(seed * 31 + len(name))):
             add(name, sp)
-    n_rand = 1800 if tier == "quick" else 24000
+    n_rand = 1500 if tier == "quick" else 24000
     for _ in range(n_rand):
         add("random", repair(random_spec(rng), rng))
     for sp in from_initgen(rng, 300 if tier == "quick" else 4000):
